@@ -74,7 +74,12 @@ def check(run, M, tier):
     def hook(vn, call, st):
         fn = call.func
         if isinstance(fn, ast.Attribute) and fn.attr == "__init__" and isinstance(fn.value, ast.Call) and isinstance(fn.value.func, ast.Name) and fn.value.func.id == "super":
-            st.env["__super_args__"] = tuple(vn._as_term(vn.ev(a, st)) for a in call.args)
+            args_ = [vn._as_term(vn.ev(a, st)) for a in call.args]
+            if not args_:   # App.__init__(alg, show_pbar=...) called with keywords
+                kws_ = {k.arg: vn._as_term(vn.ev(k.value, st)) for k in call.keywords if k.arg}
+                if "alg" in kws_:
+                    args_ = [kws_["alg"]]
+            st.env["__super_args__"] = tuple(args_)
             return NONE
         return None
     vn, code = vn_paths(M, init, real=REAL, loop_hook=iter_once_loop, call_hook=hook)
